@@ -129,6 +129,14 @@ LinesOfBytes(bs) == IF bs = <<>> THEN <<>> ELSE
                     LET ls == SplitAt(bs, NLc) IN IF ls[Len(ls)] = <<>> THEN SubSeq(ls, 1, Len(ls) - 1) ELSE ls
 ParseBytes(bs, par) == ParseFile(LinesOfBytes(bs), par)
 
+\* ---- entry points ----
+\* econf_readFile, and every file consulted by a layered read (main file and drop-ins of econf_readDirs*,
+\* econf_readConfig*), go through the same read_file_with_callback -> read_file: ONE line loop, with the
+\* caller's delimiter and comment sets.  An empty (or absent) comment set stands for "#" - on every path.
+EffComment(c) == IF c = <<>> THEN <<35>> ELSE c
+EffPar(par) == [par EXCEPT !.comment = EffComment(par.comment)]
+ReadVia(via, bs, par) == ParseBytes(bs, EffPar(par))          \* via \in {"file", "dirs-main", "dirs-dropin", "config"}: no dependence
+
 \* ---- what the public getters show of a parsed object ----
 ByGroup(ents, g) == SelectSeq(ents, LAMBDA e : e.g = g)
 Listing(st) == Cat([i \in 1..(Len(st.groups) + 1) |->
